@@ -36,7 +36,10 @@ Fill(type, class) ==
     [] type = "int" /\ class = "notint"  -> {"1.5", "1/2", "'a'", "None", "[1]", "{1}"}
     [] type = "int" /\ class = "uneval"  -> {"1//0", "1/0", "5%0", "2.0**10000", "[1][2]", "input.txt", "{}['a']", "10**5000"}
     \* (braces and per-cent signs: text that is hostile to message formatting)
-    [] type = "int" /\ class = "syntax"  -> {"1+", "(2", "2**", "1_", "0b2", "1+{", "1}", "'{'", "%d", "{0"}
+    \* (DIGIT2: a superscript two, DIGITS-AR: Arabic-Indic digits - characters that str.isdigit accepts and that are
+    \*  no Python literal; NINES: a decimal literal of 5000 digits, more than int() converts)
+    [] type = "int" /\ class = "syntax"  -> {"1+", "(2", "2**", "1_", "0b2", "1+{", "1}", "'{'", "%d", "{0", "DIGIT2", "DIGITS-AR",
+                                             "NINES"}
     [] type = "int" /\ class = "name"    -> {"abc", "x+1", "__import__"}
     [] type = "int" /\ class = "wrongtype" -> {"@[LST]@", "@[PTH]@", "@[IND]@", "@[IND2]@"}   \* not made up of just strings
     [] type = "int" /\ class = "huge"    -> {"10**100000"}
